@@ -27,6 +27,14 @@ var checks = map[string]Check{
 			for _, ev := range []string{"none", "localclose", "remoteclose", "break", "cutreq", "cutrep"} {
 				js = append(js, sched("c02_live", "proto=raw,calls=1,event="+ev, b, 16))
 			}
+			// the caller consumes the completion from its own channel and reads the status at once
+			evs := []string{"remoteclose"}
+			if tier == "thorough" {
+				evs = []string{"remoteclose", "localclose", "break", "cutrep"}
+			}
+			for _, ev := range evs {
+				js = append(js, sched("c02_live", "proto=raw,calls=1,wait=chan,event="+ev, b, 16))
+			}
 			for _, k := range []string{"ok", "dup", "unknownseq", "codec0body", "badbody", "errstatus_body", "wrongtype_call", "wrongtype_push", "wrongtype_9", "okmeta", "truncated", "nothing"} {
 				js = append(js, sched("c02_hostile", fmt.Sprintf("kind=%s,calls=1", k), b, 4))
 			}
@@ -93,6 +101,10 @@ var checks = map[string]Check{
 					j.Budget = 600
 				}
 				js = append(js, j)
+			}
+			// k sequential calls whose commands are retained and re-read after later calls reused the pooled objects
+			for _, pr := range []string{"raw", "json"} {
+				js = append(js, sched("c01", "proto="+pr+",body=json,shape=SEQ,k=4", 0, 1))
 			}
 			return js
 		},
@@ -177,6 +189,14 @@ var checks = map[string]Check{
 			sq.EnvOnly = true
 			js = append(js, sq)
 			js = append(js, Job{Mode: "enum", Name: "c04_frames", Shards: 4})
+			// a call cancelled by a disconnection: the status the caller reads at the moment of completion
+			// (from its own completion channel or after Done) is already the final non-OK status
+			cb := 1
+			if tier == "thorough" {
+				cb = 2
+			}
+			js = append(js, sched("c02_live", "proto=raw,calls=1,wait=chan,event=remoteclose", cb, 16))
+			js = append(js, sched("c02_live", "proto=raw,calls=1,wait=chan,event=break", cb-1, 16))
 			return js
 		},
 	},
@@ -274,6 +294,8 @@ var checks = map[string]Check{
 				}
 			}
 			js = append(js, sched("c09_siblings", "", b, 1), sched("c09_caller", "", b, 1))
+			// a call/push that is re-sent after a redial from the write path: every calling-side hook at most once
+			js = append(js, sched("c13_revive", "op=call,budget=1", 1, 2), sched("c13_revive", "op=push,budget=1", 1, 2))
 			if tier == "thorough" {
 				for i := range js {
 					js[i].Bound = 1
@@ -316,7 +338,18 @@ var checks = map[string]Check{
 		Rule:        "full product {call,push} x secure marker {absent,true,false} x accept marker {absent,true,false} x key pair {same 16/24/32 bytes, different} x value length {0,1,15,16,17,100} for the json and xml body codecs on live sessions under every non-preemptive schedule; oracle: handler argument/caller result equality, plaintext substring search on the captured wire in both directions, reply encrypted iff requested, different key => no handler/no result and non-OK, unmarked traffic byte-identical to a run without the plugin",
 		Assumptions: baseAssumptions,
 		Jobs: func(tier string) []Job {
-			return []Job{sched("c17", "codec=json", 0, 2), sched("c17", "codec=xml", 0, 2)}
+			js := []Job{sched("c17", "codec=json", 0, 2), sched("c17", "codec=xml", 0, 2)}
+			// a secure call/push that is re-sent after a redial from the write path is delivered intact exactly once
+			b := 1
+			if tier == "thorough" {
+				b = 2
+			}
+			for _, op := range []string{"call", "push"} {
+				j := sched("c13_revive", "secure=1,budget=1,op="+op, b, 4)
+				j.Budget = 300
+				js = append(js, j)
+			}
+			return js
 		},
 	},
 	"C18": {
@@ -358,7 +391,7 @@ var checks = map[string]Check{
 		Assumptions: append([]string{"time.Sleep(redialInterval) is a yield; dial reachability is decided by the harness per attempt"}, baseAssumptions...),
 		Jobs: func(tier string) []Job {
 			var js []Job
-			for _, f := range []string{"idle", "rclose", "awaiting", "write", "both"} {
+			for _, f := range []string{"idle", "rclose", "awaiting", "write", "both", "both2"} {
 				for _, b := range []string{"0", "1", "2", "-1"} {
 					for _, d := range []string{"0", "1", "3"} {
 						if b == "0" && d != "0" {
@@ -369,13 +402,44 @@ var checks = map[string]Check{
 							j.Bound = 1
 							j.Shards = 4
 							j.Budget = 120
-						} else if b == "1" && (f == "idle" || f == "awaiting" || f == "both") && d != "3" {
+							if b == "1" && d == "0" && (f == "both" || f == "both2") {
+								j.Shards = 16
+								j.Budget = 900
+							}
+						} else if b == "1" && (f == "idle" || f == "awaiting" || f == "both" || f == "both2") && d != "3" {
 							j.Bound = 1
 							j.Shards = 4
 							j.Budget = 60
+							if f == "both2" {
+								j.Shards = 8
+							}
 						}
 						js = append(js, j)
 					}
+				}
+			}
+			// the server comes back after the budget was exhausted; the later operation redials from the write path
+			for _, op := range []string{"call", "push"} {
+				for _, b := range []string{"1", "2"} {
+					j := sched("c13_revive", "op="+op+",budget="+b, 1, 2)
+					if tier == "thorough" {
+						j.Bound = 2
+						j.Shards = 8
+						j.Budget = 300
+					}
+					js = append(js, j)
+				}
+			}
+			// sessions that keep the default id (the dialled connection's address, which changes with every redial)
+			for _, f := range []string{"idle", "awaiting"} {
+				for _, b := range []string{"1", "2"} {
+					j := sched("c13", "fault="+f+",budget="+b+",down=0,setid=0", 0, 1)
+					if tier == "thorough" {
+						j.Bound = 1
+						j.Shards = 4
+						j.Budget = 120
+					}
+					js = append(js, j)
 				}
 			}
 			// the unavailable attempts fail in the client's PostDial hook (server reachable at the network level)
